@@ -216,6 +216,10 @@ theorem encodeTo_spec (c : Codec) (v : Val) (fl : Flags) (avail : Nat) :
     by_cases h : (i != 0 || fl.wantzero) = true <;> by_cases h2 : avail < 4 <;> simp [h, h2] <;> omega
   case fixed64.int i =>
     by_cases h : (i != 0 || fl.wantzero) = true <;> by_cases h2 : avail < 8 <;> simp [h, h2] <;> omega
+  case sfixed32.int i =>
+    by_cases h : (i != 0 || fl.wantzero) = true <;> by_cases h2 : avail < 4 <;> simp [h, h2] <;> omega
+  case sfixed64.int i =>
+    by_cases h : (i != 0 || fl.wantzero) = true <;> by_cases h2 : avail < 8 <;> simp [h, h2] <;> omega
   case float32.float i =>
     by_cases h : (i != 0 || fl.wantzero) = true <;> by_cases h2 : avail < 4 <;> simp [h, h2] <;> omega
   case float64.float i =>
